@@ -59,6 +59,25 @@ bool is_expl(const std::string& s, const World& w, size_t& k)
     return k < w.expl.size();
 }
 
+// --fresh (first run of the process only): the static declared / indexed lines are NOT touched before the logical threads
+// run, so their first use — and whatever lazy creation a tree under test does there — happens inside the run, possibly
+// from several threads at once.  Lines are then named when an object is first built on them (see name_fresh).
+bool g_fresh = false;
+bool g_fresh_now = false;
+
+void name_fresh(const void* line, const std::string& src)
+{
+    if (g_fresh_now && line != nullptr && !verif::is_registered(line)) {
+        // a second, different line for an index that already has a named one keeps its automatic name: the oracle then
+        // reports "object constructed on ix1 holds line <other>"
+        static std::vector<std::string> given;
+        if (std::find(given.begin(), given.end(), src) == given.end()) {
+            given.push_back(src);
+            verif::reg_name(line, src);
+        }
+    }
+}
+
 void do_op(World& w, const std::string& op)
 {
     auto f = split(op, ':');
@@ -95,6 +114,8 @@ void do_op(World& w, const std::string& op)
                 verif::fail("client-error: unknown line " + src);
                 return;
             }
+            name_fresh(trig ? static_cast<const void*>(w.T[i]->lineTrigger.get())
+                            : static_cast<const void*>(w.D[i]->lineDetector.get()), src);
             verif::emit("ret " + nm + " " + (trig ? tline(*w.T[i]) : dline(*w.D[i])));
         }
         catch (const std::out_of_range&) {
@@ -191,15 +212,25 @@ void on_crash(int sig)
 
 verif::Result exec(const Script& sc, const verif::Config& cfg)
 {
+    static bool first = true;
+    g_fresh_now = g_fresh && first;
+    first = false;
     // the declared / indexed lines are function-local statics of the library: create them outside the
     // recording and put them back to "not tripped" so that every run starts like a fresh process
+    // In fresh mode only the declared line and index 0 are touched beforehand: that completes the library's function-local
+    // static initialisation (guarded by a real __cxa_guard lock the scheduler cannot see — no logical thread may be parked
+    // inside it) while leaving every other index for the run itself.
+    unsigned int pre = g_fresh_now ? 1U : unsigned(NIDX);
     TripWire::getLine()->store(false);
-    for (unsigned int k = 0; k < unsigned(NIDX); ++k) {
+    for (unsigned int k = 0; k < pre; ++k) {
         TripWire::getIndexedLine(k)->store(false);
     }
     verif::begin(cfg);
+    // constructing a line's atomic<bool> is a scheduling point (lazy creation windows) — only in fresh mode, after the
+    // static initialisation above is complete
+    verif::g_ctor_sched = g_fresh_now ? 1 : 0;
     verif::reg_name(TripWire::getLine().get(), "decl");
-    for (unsigned int k = 0; k < unsigned(NIDX); ++k) {
+    for (unsigned int k = 0; k < pre; ++k) {
         verif::reg_name(TripWire::getIndexedLine(k).get(), "ix" + std::to_string(k));
     }
     auto cfgparts = split(sc.config, '/');
@@ -586,6 +617,9 @@ std::vector<Script> tw_directed()
         // ONE detector polled by two threads at once (const method; the library shares detectors between threads):
         // both must synchronise with the trigger before reading what it published
         parse("1/mkT:0:e0.mkD:0:e0;w:0,rm:0;wt:0,r:0;wt:0,r:0"),
+        // first use of one indexed line from two threads at once: both must end up on the SAME line
+        parse("0;mkT:0:ix1,rm:0;mkD:0:ix1,wt:0,ck:0"),
+        parse("0;mkT:0:ix2,mkT:1:ix3,rm:1,rm:0;mkD:0:ix2,mkD:1:ix3,wt:0,wt:1;mkD:2:ix3,mkD:3:ix2,wt:2,wt:3"),
         parse("1/mkT:0:e0.mkD:0:e0;w:0,rm:0;ck:0,ck:0,pr:0:0,pr:0:0;ck:0,pr:0:0,ck:0,pr:0:0"),
     };
 }
@@ -596,5 +630,10 @@ int main(int argc, char** argv)
     signal(SIGSEGV, on_crash);
     signal(SIGBUS, on_crash);
     signal(SIGABRT, on_crash);
+    for (int i = 1; i < argc; ++i) {
+        if (std::string(argv[i]) == "--fresh") {
+            g_fresh = true;
+        }
+    }
     return client_main(argc, argv, tw_directed(), tw_gen, exec);
 }
